@@ -65,6 +65,10 @@ type Case struct {
 	// SrcFail (produce, io.WriterTo source): 0 the source is sound; k > 0: its WriteTo reports an error after it has
 	// written k-1 bytes (or all of its text, if that is shorter). A failing source is an error, never a shorter table. (r6)
 	SrcFail int `json:"src_fail,omitempty"`
+	// SrcErr: the error a failing stream reports: "" (an error of its own) or "unexpected-eof" (io.ErrUnexpectedEOF, what
+	// a truncated archive member or a LimitedReader over a broken connection reports). SrcFail also applies to the stream
+	// a consumer reads from and to the streams behind the *csv.Reader and io.Reader sources of a producer. (r7)
+	SrcErr string `json:"src_err,omitempty"`
 }
 
 var errSourceFailed = errors.New("scripted failure of the io.WriterTo source")
@@ -102,6 +106,8 @@ type stream struct {
 	chunk   int
 	eofData bool
 	closed  int
+	failAt  int // -1: sound; else Read reports failErr once this many bytes were delivered
+	failErr error
 }
 
 var errReadAfterClose = errors.New("c16: read after close")
@@ -110,12 +116,18 @@ func (s *stream) Read(p []byte) (int, error) {
 	if s.closed > 0 {
 		return 0, errReadAfterClose
 	}
+	if s.failAt >= 0 && s.off >= s.failAt {
+		return 0, s.failErr
+	}
 	if s.off >= len(s.data) {
 		return 0, io.EOF
 	}
 	n := len(p)
 	if s.chunk > 0 && n > s.chunk {
 		n = s.chunk
+	}
+	if s.failAt >= 0 && s.off+n > s.failAt {
+		n = s.failAt - s.off
 	}
 	n = copy(p[:n], s.data[s.off:])
 	s.off += n
@@ -515,7 +527,22 @@ func judgeError(what string, anyError bool, m model, want [][]string, textKind b
 }
 
 func (c Case) newStream(data string) *stream {
-	return &stream{data: []byte(data), chunk: c.Chunk, eofData: c.EOFData}
+	s := &stream{data: []byte(data), chunk: c.Chunk, eofData: c.EOFData, failAt: -1}
+	if c.SrcFail > 0 {
+		// strictly before the end, so that the failure is met whatever the chunking
+		s.failAt = c.SrcFail - 1
+		if s.failAt >= len(data) {
+			s.failAt = len(data) - 1
+		}
+		if s.failAt < 0 {
+			s.failAt = 0
+		}
+		s.failErr = errSourceFailed
+		if c.SrcErr == "unexpected-eof" {
+			s.failErr = io.ErrUnexpectedEOF
+		}
+	}
+	return s
 }
 
 func checkConsume(c Case, kind int) *kit.Violation {
@@ -532,21 +559,22 @@ func checkConsume(c Case, kind int) *kit.Violation {
 	}
 
 	var (
-		err     error
-		dest    interface{}
-		out     func() []byte     // textual destinations
-		recs    func() [][]string // record-level destinations
-		csvw    *csv.Writer
-		snk     = &sink{}
-		rf      = &readerFrom{}
-		bu      = &binUnmarshaler{}
-		rw      = &recWriter{retain: !c.Opts.Reuse} // records may only share memory when the caller asked for ReuseRecord
-		tblP    [][]string
-		tblN    table
-		bytesP  []byte
-		bytesN  blob
-		stringP string
-		stringN text
+		err       error
+		dest      interface{}
+		out       func() []byte     // textual destinations
+		recs      func() [][]string // record-level destinations
+		csvw      *csv.Writer
+		snk       = &sink{}
+		rf        = &readerFrom{}
+		bu        = &binUnmarshaler{}
+		rw        = &recWriter{retain: !c.Opts.Reuse} // records may only share memory when the caller asked for ReuseRecord
+		tblP      [][]string
+		heldTable [][]string
+		tblN      table
+		bytesP    []byte
+		bytesN    blob
+		stringP   string
+		stringN   text
 	)
 	switch kind {
 	case kCSV:
@@ -576,6 +604,7 @@ func checkConsume(c Case, kind int) *kit.Violation {
 				old[i] = []string{"old", strconv.Itoa(i)}
 			}
 		}
+		heldTable = old // the caller's own copy of the table value the destination held before the call
 		if c.NamedRecord {
 			tblR := make([]record, len(old))
 			for i := range old {
@@ -639,6 +668,12 @@ func checkConsume(c Case, kind int) *kit.Violation {
 		}
 		return fmt.Sprintf("the text %q", out())
 	}
+	if c.SrcFail > 0 {
+		if err == nil {
+			return kit.Failf("%s: SOURCE-FAILURE-AS-SUCCESS: the stream reported %v after %d of its %d bytes; Consume returned success and delivered %s", what, src.failErr, src.failAt, len(in), delivered())
+		}
+		return nil
+	}
 	if done, v := judgeError(what, false, m, want, !recordLevel(kind), o, err, delivered); done {
 		return v
 	}
@@ -672,6 +707,12 @@ func checkConsume(c Case, kind int) *kit.Violation {
 	if kind == kTable {
 		if v := aliasing(what, got); v != nil {
 			return v
+		}
+		// the table the destination held before belongs to whoever kept it: it still reads as it did (r7)
+		for i := range heldTable {
+			if !sameRec(heldTable[i], []string{"old", strconv.Itoa(i)}) {
+				return kit.Failf("%s: ALIASED: the destination held a table of %d records (capacity %d) before the call; the caller's copy of that table now reads %q at index %d (was [old %d])", what, len(heldTable), cap(heldTable), heldTable[i], i, i)
+			}
 		}
 	}
 	return nil
@@ -811,6 +852,12 @@ func checkProduce(c Case, kind int) ([]byte, *kit.Violation) {
 	}
 
 	delivered := func() string { return fmt.Sprintf("the text %q", snk.buf.Bytes()) }
+	if (kind == kCSV && c.Rich || kind == kStream) && c.SrcFail > 0 { // the kinds that read from the scripted stream
+		if err == nil {
+			return nil, kit.Failf("%s: SOURCE-FAILURE-AS-SUCCESS: the stream behind the source reported an error before its end (after at most %d of %d bytes); Produce returned success and delivered %s", what, c.SrcFail-1, len(in), delivered())
+		}
+		return nil, nil
+	}
 	if kind == kFrom && c.SrcFail > 0 {
 		if err == nil {
 			return nil, kit.Failf("%s: SOURCE-FAILURE-AS-SUCCESS: the io.WriterTo source reported an error after %d of its %d bytes; Produce returned success and delivered %s", what, minInt(c.SrcFail-1, len(in)), len(in), delivered())
